@@ -294,7 +294,13 @@ def object_protocol_rule(ctx, rule: str, clauses):
                 u_line = unwrap[0] if unwrap else 0
 
                 def dict_check(x, text):
-                    return isinstance(x, ast.If) and norm(x.test) == f"not isinstance({text}, dict)" and any(isinstance(y, ast.Raise) for y in x.body)
+                    if not isinstance(x, ast.If):
+                        return False
+                    # the datum is `text`, or a local of the branch holding it (`wrapped = data.data`)
+                    subjects = {text} | {t_ for t_, v_, _ in pairs if comes_from(v_, text) and t_ != "data"}
+                    neg = any(norm(x.test) == f"not isinstance({s_}, dict)" for s_ in subjects) and any(isinstance(y, ast.Raise) for y in x.body)
+                    pos = any(norm(x.test) == f"isinstance({s_}, dict)" for s_ in subjects) and bool(x.orelse) and any(isinstance(y, ast.Raise) for y in x.orelse)
+                    return neg or pos
                 rechecked = any(dict_check(x, "data.data") and x.lineno <= u_line for x in ast.walk(ast.Module(body=branch.body, type_ignores=[]))) \
                     or any(dict_check(x, "data") and x.lineno >= u_line for x in ast.walk(ast.Module(body=branch.body, type_ignores=[]))) \
                     or any(dict_check(x, "data") for x in blk_after[:1])
